@@ -86,4 +86,22 @@ CHECKS = {
              "(DEFINE_RE, SUBST_RE, ATTR_RE) are value-level and not decided; "
              "the relative order of case/switch w.r.t. condition/repeat is "
              "not pinned (docs and code disagree)."),
+    "C03": dict(
+        technique="proof over the regex syntax tree (first sets, "
+                  "unconditional emptiness) for tokenizer totality; def-use "
+                  "of captured lexical fields through node construction and "
+                  "emitters against the regex group tree",
+        text="Proves for every input string that the lexer regex matches "
+             "non-empty at every position (alternatives start with character "
+             "classes covering all of Unicode, each followed by an "
+             "unconditionally-empty remainder) and that iter_xml yields every "
+             "match with its offset, i.e. tokens concatenate to the input "
+             "with contiguous positions.  Decides that every lexical field "
+             "captured from a tag or attribute reaches the output exactly "
+             "once and never together with an enclosing group, that the "
+             "statement-free emitters output the unmodified token, and that "
+             "the only source rewrite is CR/CRLF->LF outside XML mode.",
+        note="Trusted: sre finditer semantics.  Not decided: that the tag "
+             "sub-regexes dissect every tag the way a reader expects "
+             "(value-level); '<!--?' stripping."),
 }
